@@ -46,6 +46,10 @@ def BOUNDS(tier):
             "documents": "all trees <=%d nodes + kinds + deep" % (2 if tier == "quick" else 3), "call_paths": 14}
 
 
+class AtIteration(Exception):
+    """the call of finditer() returned normally and the exception came while iterating"""
+
+
 def paths(jp, env):
     """name -> callable(query, doc) returning a comparable observation"""
     def lst(it):
@@ -57,7 +61,14 @@ def paths(jp, env):
     out = {}
     for fam, obj in (("module", jp), ("env", env)):
         out[fam + ".find"] = lambda q, d, o=obj: ("list", lst(o.find(q, d)))
-        out[fam + ".finditer"] = lambda q, d, o=obj: ("list", lst(o.finditer(q, d)))
+        def fi(q, d, o=obj):
+            it = o.finditer(q, d)  # an invalid query is rejected here, by the call itself
+            try:
+                return ("list", lst(it))
+            except Exception as e:  # noqa: BLE001
+                raise AtIteration(e) from None
+
+        out[fam + ".finditer"] = fi
         out[fam + ".find_one"] = lambda q, d, o=obj: ("one", one(o.find_one(q, d)))
         out[fam + ".compile.find"] = lambda q, d, o=obj: ("list", lst(o.compile(q).find(d)))
         out[fam + ".compile.apply"] = lambda q, d, o=obj: ("list", lst(o.compile(q).apply(d)))
@@ -75,13 +86,25 @@ def get_paths():
     return _P["p"]
 
 
-def observe_all(query, doc):
+def observe_with(table, query, doc):
     obs = {}
-    for name, fn in get_paths().items():
+    for name, fn in table.items():
         try:
             obs[name] = fn(query, doc)
+        except AtIteration as e:
+            obs[name] = ("err", type(e.args[0]).__name__, "at-iteration")
         except Exception as e:  # noqa: BLE001
             obs[name] = ("err", type(e).__name__)
+    return obs
+
+
+def observe_all(query, doc):
+    obs = observe_with(get_paths(), query, doc)
+    try:
+        impl.jp.compile(query)
+        obs["_compile_fails"] = False
+    except Exception:  # noqa: BLE001
+        obs["_compile_fails"] = True
     return obs
 
 
@@ -89,6 +112,12 @@ def disagreement(obs):
     """-> None | (path, expected, observed)"""
     base = obs["module.find"]
     for name, o in obs.items():
+        if name.startswith("_"):
+            continue
+        if obs.get("_compile_fails") and len(o) == 3:
+            # the query is invalid: every entry point raises when it is called; a finditer() that
+            # returns normally and fails on the first next() has not rejected the query
+            return (name, base, ("returned normally", "raised " + o[1] + " while iterating"))
         if base[0] == "err":
             # a lazy path whose iterator is never advanced far enough cannot fail: find_one on
             # an evaluation-time error may legitimately return the first node
@@ -121,6 +150,9 @@ def check_pair(query, doc):
 
 
 def check_case(case):
+    if "reconfigured" in case:
+        sh = run_reconfigured(Shard(PROPERTY), only=case)
+        return sh.violations[0] if sh.violations else None
     if "stack_case" in case:
         sh = run_stack(Shard(PROPERTY))
         for v in sh.violations:
@@ -154,7 +186,7 @@ def shards(tier):
     out = [{"part": "struct", "i": i, "tier": tier} for i in range(len(c01.SEGMENTS))]
     out += [{"part": "filter", "i": i, "tier": tier} for i in range(len(c02.U_SMALL))]
     out += [{"part": "invalid", "tier": tier}]
-    out += [{"part": "stack", "tier": tier}]
+    out += [{"part": "stack", "tier": tier}, {"part": "reconfigured", "tier": tier}]
     return out
 
 
@@ -216,12 +248,7 @@ def run_stack(sh):
     try:
         for q, doc, env_only in stack_cases():
             table = big if env_only else get_paths()
-            obs = {}
-            for name, fn in table.items():
-                try:
-                    obs[name] = fn(q, doc)
-                except Exception as e:  # noqa: BLE001
-                    obs[name] = ("err", type(e).__name__)
+            obs = observe_with(table, q, doc)
             sh.states += 1
             sh.transitions += len(table)
             sh.traces += len(table)
@@ -243,10 +270,83 @@ def run_stack(sh):
     return sh
 
 
+def reconfig_cases():
+    """(name, query, document, reconfigure(env)): the environment is reconfigured AFTER a query was
+    compiled on it; the entry points of that compiled query and the environment's own methods (which
+    compile again) must still agree - both follow the environment as it is when they are applied"""
+    from jsonpath_rfc9535.function_extensions import ExpressionType, FilterFunction
+
+    def make_f(n):
+        class F(FilterFunction):
+            arg_types = [ExpressionType.VALUE]
+            return_type = ExpressionType.LOGICAL
+
+            def __call__(self, v):
+                return v == n and not isinstance(v, bool)
+
+        return F()
+
+    def limit(n):
+        return lambda e: setattr(e, "max_recursion_depth", n)
+
+    def refunc(n):
+        return lambda e: e.function_extensions.__setitem__("f1", make_f(n))
+
+    deep = deep_doc(6)
+    for q in ("$..*", "$..[0]", "$[?@..[0]]", "$[?count(@..*) > 1]", "$..[?@[0]]"):
+        for d in (deep, [deep], {"a": deep, "b": 1}):
+            yield "limit lowered", q, d, limit(3), None
+            yield "limit lowered to 1", q, d, limit(1), None
+            yield "limit raised", q, d, limit(200), limit(2)
+    docs = [[{"a": 1}, {"a": 2}, {"a": 3}], {"x": {"a": 2}, "y": {"a": 1}}]
+    for q in ("$[?f1(@.a)]", "$..[?f1(@.a)]", "$[?!f1(@.a) && @.a]", "$[?f1(@.a) || f1(@.a)]"):
+        for d in docs:
+            yield "function registered again", q, d, refunc(2), refunc(1)
+
+
+def run_reconfigured(sh, only=None):
+    for name, q, doc, change, before in reconfig_cases():
+        case = {"reconfigured": name, "query": q, "doc": impl.jsonable(doc)}
+        if only is not None and only != case:
+            continue
+        env = impl.jp.JSONPathEnvironment()
+        if before is not None:
+            before(env)
+        try:
+            cq = env.compile(q)
+            list(cq.finditer(doc))  # the compiled query has been applied once already
+        except Exception:  # noqa: BLE001
+            pass
+        change(env)
+        table = {k: v for k, v in paths(impl.jp, env).items() if k.startswith("env.")}
+        # the query compiled BEFORE the change, through its four entry points
+        one = lambda n: None if n is None else (n.location, id(n.value))  # noqa: E731
+        lst = lambda it: [(n.location, id(n.value)) for n in it]  # noqa: E731
+        table["old.find"] = lambda q_, d_: ("list", lst(cq.find(d_)))
+        table["old.apply"] = lambda q_, d_: ("list", lst(cq.apply(d_)))
+        table["old.finditer"] = lambda q_, d_: ("list", lst(cq.finditer(d_)))
+        table["old.find_one"] = lambda q_, d_: ("one", one(cq.find_one(d_)))
+        obs = observe_with(table, q, doc)
+        sh.states += 1
+        sh.transitions += len(table)
+        sh.traces += len(table)
+        sh.evaluations += 1
+        sh.nontrivial += 1
+        obs["module.find"] = obs["env.find"]
+        d = disagreement(obs)
+        if d is not None:
+            sh.violation(violation("entry-points-disagree", case, {"env.find": list(map(str, d[1]))[:2]},
+                                   {"path": d[0], "observed": list(map(str, d[2]))[:2]}, "disagree:" + d[0]))
+    sh.sample({"reconfigured": "limit lowered", "query": "$..*"}, limit=1)
+    return sh
+
+
 def run_shard(desc):
     sh = Shard(PROPERTY)
     if desc["part"] == "stack":
         return run_stack(sh)
+    if desc["part"] == "reconfigured":
+        return run_reconfigured(sh)
     docs = documents(desc["tier"])
     for q in queries(desc):
         sh.states += 1
